@@ -11,14 +11,15 @@ _T = TypeVar("_T", bound=np.number)
 def axes_to_rotator(z: ArrayLike | None, y: ArrayLike) -> Rotation:
     """Determine the Rotation object that rotates the z-axis to z and the y-axis to y."""
     y0 = _normalize(np.atleast_2d(y))
-    rot_y = _get_align_rotator([[0, 1, 0]], y0)
     if z is None:
         z0 = _extract_orthogonal(y0, np.array([[1, 0, 0]]))
     else:
         z0 = _extract_orthogonal(y0, _normalize(np.atleast_2d(z)))
-    z0_trans = rot_y.apply(z0, inverse=True)
-    rot_z = _get_align_rotator([[1, 0, 0]], z0_trans)
-    return rot_y * rot_z
+    z0 = _normalize(z0)
+    # The rotation matrix maps the unit vectors (1,0,0), (0,1,0), (0,0,1) to the z, y, x
+    # axes, i.e. its columns are z, y and x = y x z (right-handed in zyx order).
+    x0 = -np.cross(y0, z0, axis=1)
+    return Rotation.from_matrix(np.stack([z0, y0, x0], axis=2))
 
 
 def _get_align_rotator(src, dst) -> Rotation:
